@@ -100,7 +100,7 @@ def enc_recipe(r):
         if "metadata" in r:
             out["metadata"] = enc(r["metadata"])
         if r.get("edge_lists"):
-            out["edge_lists"] = True
+            out["edge_lists"] = r["edge_lists"]
         return out
     if r["k"] == "__alias__":
         return {"k": "__alias__", "of": r["of"]}
@@ -119,7 +119,7 @@ def dec_recipe(j):
         if "metadata" in j:
             out["metadata"] = dec(j["metadata"])
         if j.get("edge_lists"):
-            out["edge_lists"] = True
+            out["edge_lists"] = j["edge_lists"]
         return out
     if j["k"] == "__alias__":
         return {"k": "__alias__", "of": j["of"]}
@@ -149,7 +149,10 @@ def build(r):
             kw["metadata"] = r["metadata"]
         built = {n: build(x) for n, x in r["nodes"].items() if x["k"] != "__alias__"}
         nodes = {n: (built[x["of"]] if x["k"] == "__alias__" else built[n]) for n, x in r["nodes"].items()}
-        edges = [list(e) for e in r["edges"]] if r.get("edge_lists") else [tuple(e) for e in r["edges"]]
+        if r.get("edge_lists") == "mixed":      # list and tuple records side by side (an edge appended later as a list)
+            edges = [list(e) if i % 2 == 0 else tuple(e) for i, e in enumerate(r["edges"])]
+        else:
+            edges = [list(e) for e in r["edges"]] if r.get("edge_lists") else [tuple(e) for e in r["edges"]]
         return nir.NIRGraph(nodes=nodes, edges=edges, **kw)
     cls = getattr(nir, r["k"])
     if r.get("subclass"):
